@@ -39,6 +39,13 @@ impl<'a> SendBlocksProofProcess<'a> {
 
     pub(crate) fn execute(self) -> Status {
         let status = self.execute_internally();
+        if !status.is_ok() {
+            // The request ends here although it wasn't answered: let other peers be asked for
+            // what it was fetching.
+            self.protocol
+                .peers()
+                .mark_fetching_headers_timeout(self.peer_index);
+        }
         self.protocol
             .peers()
             .update_blocks_proof_request(self.peer_index, None, false);
